@@ -246,15 +246,25 @@ static std::string run_case(const toks_t& t)
           rlbox::tainted<void (*)(), Sbx> p = n == 5 ? LIFE_FA(f5) : n == 6 ? LIFE_FA(f6) : LIFE_FA(f7);
           out += c + "=" + (impl->lookups > before ? "asked" : "cached") + ":" + std::to_string(reinterpret_cast<uintptr_t>(p.UNSAFE_unverified()) - 0x1000);
 #endif
-        } else if (c == "r") {
+        } else if (c == "r" || c == "rx") {
           int j = std::stoi(o[1]), i = std::stoi(o[2]), k = std::stoi(o[3]);
+          if (c == "rx") {
+            // a registration whose abort is RECOVERABLE (RLBOX_USE_EXCEPTIONS): a refused registration must leave no trace,
+            // the history goes on
+            try { owners[j] = reg(*sb[i], k); }
+            catch (const std::runtime_error& e) {
+              if (std::strncmp(e.what(), "HARNESS", 7) == 0) throw;
+              out += "rx=ABORT";
+              continue;
+            }
+          } else
           owners[j] = reg(*sb[i], k);
           own_sb[j] = i;
           own_fn[j] = k;
 #ifdef LIFE_NOOP
-          out += "r=ok";
+          out += c + "=ok";
 #else
-          out += "r=" + std::to_string(owners[j].UNSAFE_sandboxed(*sb[i]) - Sbx::CB_BASE);
+          out += c + "=" + std::to_string(owners[j].UNSAFE_sandboxed(*sb[i]) - Sbx::CB_BASE);
 #endif
         } else if (c == "fill") {
           int i = std::stoi(o[1]), n = std::stoi(o[2]);
